@@ -28,7 +28,8 @@ TReceive == /\ Is("Receive") /\ Receive /\ order[rcvd + 1] = Ev.b
             /\ CASE Ev.res = "genesis" -> Ev.b = 0
                  [] Ev.res = "bad_nc"  -> Ev.b \in status' /\ svc' = Idle
                  [] Ev.res = "pass"    -> svc'.pc = "insert"
-TInsert  == Is("Insert") /\ Insert /\ svc.b = Ev.b
+TInsert  == Is("Insert") /\ Insert /\ svc.b = Ev.b /\ ~svc.conflict
+TInsertFail == Is("InsertFail") /\ Insert /\ svc.b = Ev.b /\ svc.conflict
 TBroker  == /\ Is("Broker") /\ Broker /\ svc.b = Ev.b
             /\ CASE Ev.dec = "pending" -> Ev.b \in pending' /\ Len(preQ') = Len(preQ) + 1
                  [] Ev.dec = "invalid" -> Ev.b \in status' /\ Ev.b \notin stored'
@@ -42,7 +43,7 @@ TPreloadReject == Is("PreloadReject") /\ Preload /\ Head(preQ) = Ev.b /\ ~Preloa
 TVerify  == /\ Is("Verify") /\ Verify /\ Head(verQ) = Ev.b
             /\ vfy'.res = Ev.res /\ tip' = Ev.tip
 TVerifyDone == Is("VerifyDone") /\ VerifyDone /\ vfy.b = Ev.b
-TNext == TReset \/ TDeliver \/ TReceive \/ TInsert \/ TBroker \/ TRelease \/ TPreload \/ TPreloadReject \/ TVerify \/ TVerifyDone
+TNext == TReset \/ TDeliver \/ TReceive \/ TInsert \/ TInsertFail \/ TBroker \/ TRelease \/ TPreload \/ TPreloadReject \/ TVerify \/ TVerifyDone
 TSpec == TInit /\ [][TNext]_tvars
 \* the action property of C01, exempting the harness's reset of the node between scenarios
 TNeverLeave == [][(tip' # tip /\ l <= Len(Rec) /\ Rec[l].ev # "Reset") => TD(tip') > TD(tip)]_tvars
